@@ -25,6 +25,11 @@ func main() {
 		cmdCheck(os.Args[2:])
 	case "gen":
 		cmdGen(os.Args[2:])
+	case "replay":
+		if len(os.Args) < 3 {
+			usage()
+		}
+		cmdReplay(os.Args[2])
 	default:
 		usage()
 	}
